@@ -421,6 +421,22 @@ func (vc *VC) applyContractEnv(st *State, v *ssa.Call, spec *FuncSpec, names []s
 	}
 	post := &Env{vc: vc, st: st, old: pre, vars: env.vars, pkg: pkg}
 	vc.bindResults(post, sig, spec, res)
+	// ghost assignments the callee performs at its return, in order
+	for _, c := range spec.clauses("ghostset") {
+		rhs, err := post.translate(c.Expr)
+		if err != nil {
+			panic(execErr(fmt.Sprintf("ghost assignment of %s at call: %v", spec.Name, err)))
+		}
+		rhs = post.value(rhs)
+		tgs := vc.exprTargets(post, c.LHS, c.Name)
+		if len(tgs) == 1 {
+			if tgs[0].idx == "" {
+				vc.set(st, tgs[0].name, tgs[0].sort, rhs.S)
+			} else {
+				vc.setAt(st, tgs[0].name, tgs[0].sort, tgs[0].idx, rhs.S)
+			}
+		}
+	}
 	for _, c := range spec.clauses("ensures") {
 		s, err := post.boolean(c.Expr)
 		if err != nil {
@@ -439,6 +455,10 @@ type modTarget struct {
 
 // modifiesTargets translates the modifies clauses of spec in env.
 func (vc *VC) modifiesTargets(spec *FuncSpec, env *Env) (targets []modTarget, all bool) {
+	// ghost assignments of the contract write their targets
+	for _, c := range spec.clauses("ghostset") {
+		targets = append(targets, vc.exprTargets(env, c.LHS, c.Name)...)
+	}
 	for _, c := range spec.clauses("modifies") {
 		for _, item := range splitTop(c.Text, ',') {
 			item = strings.TrimSpace(item)
